@@ -937,6 +937,13 @@ def replay(prop, path, seed):
     obj = json.load(open(path))
     c = obj.get("ctx") or {}
     binp = C.build_harness()
+    if str(c.get("command", "")).endswith("stress-prefilter-counter"):
+        p = subprocess.run(["timeout", "900", binp, "stress-prefilter-counter"], stdout=subprocess.PIPE, stderr=subprocess.STDOUT, text=True)
+        print(p.stdout[-300:])
+        if "Err(" in p.stdout or p.returncode != 0:
+            print("VIOLATION property=%s replay=%s" % (prop, path))
+            return 1
+        return 0
     if "record" in c and "ticks" in c["record"]:
         # C13: re-run the cost recorder and validate the same family/size again
         tr = os.path.join(ctx.dir, "cost.ndjson")
